@@ -40,7 +40,7 @@ fn base() -> (UnsealedState<InMemoryCas>, Transaction) {
 }
 
 fn scenario_names() -> Vec<&'static str> {
-    vec!["two-callers", "rivals", "faucet-twice", "chain", "chain-reversed", "shared-second-input", "independent", "faucet-spends-and-rival", "rivals-around-bystander", "two-mints", "two-mints-reversed"]
+    vec!["two-callers", "rivals", "faucet-twice", "chain", "chain-reversed", "shared-second-input", "independent", "faucet-spends-and-rival", "rivals-around-bystander", "two-mints", "two-mints-reversed", "faucet-twice-around-bystander", "chain-of-three", "chain-of-three-reversed", "three-rivals", "shared-input-and-bystander", "mint-and-two-payments"]
 }
 
 /// The batch of a scenario against `base()` (deterministic; proofs are real).
@@ -76,6 +76,18 @@ fn batch(name: &str, st: &UnsealedState<InMemoryCas>, fund: &Transaction) -> Vec
         "independent" => vec![a, by],
         "faucet-spends-and-rival" => vec![fs, rs],
         "rivals-around-bystander" => vec![r1, by, r2],
+        "faucet-twice-around-bystander" => vec![f, by, f2],
+        "chain-of-three" => {
+            let c3 = spend(vec![b.output_coinid(0)], 1001, 9);
+            vec![a, b, c3]
+        }
+        "chain-of-three-reversed" => {
+            let c3 = spend(vec![b.output_coinid(0)], 1001, 9);
+            vec![c3, b, a]
+        }
+        "three-rivals" => vec![r1, r2, spend(vec![c(0)], 1000, 10)],
+        "shared-input-and-bystander" => vec![t1, by, t2],
+        "mint-and-two-payments" => vec![a, mint(0, 1000, 14), by],
         // both above the recorded speed (10^6): difficulty 15 and 14 under the TIP-910 hash on a one-block-old coin (speeds 3,276,800 and 1,638,400)
         "two-mints" => vec![mint(0, 1000, 15), mint(1, 1001, 14)],
         "two-mints-reversed" => vec![mint(1, 1001, 14), mint(0, 1000, 15)],
